@@ -84,6 +84,9 @@ func TestVerifC19Expect(t *testing.T) {
 				if r.Intn(12) == 0 || (ti == 1 && fi == 0) || (ti == 2 && fi%10 == 3) {
 					kind = "headers-adjacent"
 				}
+				if (ti == 1 && fi == 1) || (ti > 3 && r.Intn(40) == 0) {
+					kind = "megabytes-before"
+				}
 				if allEmpty {
 					kind = []string{"unlicensed", "empty"}[r.Intn(2)]
 				}
@@ -122,6 +125,14 @@ func TestVerifC19Expect(t *testing.T) {
 						d = docs[r.Intn(len(docs))]
 					}
 					content = "// " + strings.ReplaceAll(strings.TrimRight(string(d.raw), "\n"), "\n", "\n// ") + "\npackage main\n" + vOOVBlock(r, 3)
+				case "megabytes-before":
+					// the license text starts beyond the first MiB (ordinary lines)
+					var sb strings.Builder
+					for sb.Len() < (1<<20)+r.Intn(1<<19) {
+						sb.WriteString(vOOVLine(r))
+						sb.WriteByte('\n')
+					}
+					content = sb.String() + vWithNL(string(d.raw)) + vOOVBlock(r, 1)
 				case "headers-adjacent":
 					// several header matches next to each other in the result list (and
 					// nothing else, or a license after them)
